@@ -1,6 +1,7 @@
 package model
 
 import (
+	"encoding/json"
 	"sort"
 	"strings"
 
@@ -22,6 +23,25 @@ type Query struct {
 	Limit     int       `json:"limit,omitempty"`
 	SortCalls bool      `json:"sortCalled,omitempty"` // Sort(...) was called (possibly with no options)
 	Sort      []SortOpt `json:"sort,omitempty"`
+}
+
+type queryAlias Query
+
+// Collection names need not be valid UTF-8; encoding/json would mangle them.
+func (q Query) MarshalJSON() ([]byte, error) {
+	a := queryAlias(q)
+	a.Coll = val.EncStr(a.Coll)
+	return json.Marshal(a)
+}
+
+func (q *Query) UnmarshalJSON(b []byte) error {
+	var a queryAlias
+	if err := json.Unmarshal(b, &a); err != nil {
+		return err
+	}
+	a.Coll = val.DecStr(a.Coll)
+	*q = Query(a)
+	return nil
 }
 
 // EffSort returns the effective sort options (Sort() without options = by _id).
